@@ -111,10 +111,10 @@ PROPS = {
         "rule": "transitions (position, legal move, successor) recorded along seeded histories; every legal move of every curated root and of the first 2 roots' successors is played",
         "assumptions": BOARD_ASSUME,
         "jobs": [
-            ep_gen("ep-cases", [], ["C02"], 50, seed_offset=17),
-            castle_gen("castling-cases", [], ["C02"], 40, seed_offset=13),
+            ep_gen("ep-cases", ["acc"], ["C02"], 50, seed_offset=17),
+            castle_gen("castling-cases", ["acc"], ["C02"], 40, seed_offset=13),
             chess_model("model-play", ["WellFormed"], ["SuccOK"], MCQ, MCT),
-            board_job("play", [], ["C02"], {"histories": 900, "subtrees": 220, "deep": 3}, {"histories": 60000, "subtrees": 400, "deep": 40}, sample_kinds=["reset", "play"]),
+            board_job("play", ["acc"], ["C02"], {"histories": 900, "subtrees": 220, "deep": 3}, {"histories": 60000, "subtrees": 400, "deep": 40}, sample_kinds=["reset", "play"]),
         ],
     },
     "C03": {
